@@ -1,0 +1,55 @@
+//go:build verif
+
+package trie
+
+// VerifWalk visits every node of the trie (root included) with the path that
+// leads to it, whether its child map is nil, and how many of its child
+// pointers are nil. Children are visited in ascending key order. fn's path
+// argument may be overwritten after fn returns. For runtime monitors only.
+func (t *Trie) VerifWalk(fn func(path []byte, nilMap bool, nilChildren int)) {
+	type frame struct {
+		t    *Trie
+		keys []int
+		i    int
+	}
+	sortedKeys := func(t *Trie) []int {
+		var ks []int
+		for k := 0; k < 256; k++ {
+			if _, ok := t.m[byte(k)]; ok {
+				ks = append(ks, k)
+			}
+		}
+		return ks
+	}
+	visit := func(t *Trie, path []byte) {
+		nilc := 0
+		for _, c := range t.m {
+			if c == nil {
+				nilc++
+			}
+		}
+		fn(path, t.m == nil, nilc)
+	}
+	var path []byte
+	visit(t, path)
+	stack := []*frame{{t, sortedKeys(t), 0}}
+	for len(stack) > 0 {
+		f := stack[len(stack)-1]
+		if f.i == len(f.keys) {
+			stack = stack[:len(stack)-1]
+			if len(path) > 0 {
+				path = path[:len(path)-1]
+			}
+			continue
+		}
+		k := byte(f.keys[f.i])
+		f.i++
+		c := f.t.m[k]
+		if c == nil {
+			continue
+		}
+		path = append(path, k)
+		visit(c, path)
+		stack = append(stack, &frame{c, sortedKeys(c), 0})
+	}
+}
